@@ -21,6 +21,35 @@ import Golib.Model.C14Flex
 namespace Golib.C14
 open Golib.Proto
 
+/-- `==` of the element (or map-key) type, on the coded values the harness uses.  NOT assumed
+reflexive: for `float64` (and structs containing one) `NaN == NaN` is false, and `==` is coarser
+than identity (`-0 == +0`).  All arena theorems hold for every `ElemEq`. -/
+structure ElemEq where
+  eq : Int → Int → Bool
+
+/-- `int` (and every type whose `==` is identity of the coded value) -/
+def intEq : ElemEq := ⟨fun a b => a == b⟩
+
+def nanCode : Int := 1000000
+def negZeroCode : Int := 1000001
+def canonF (a : Int) : Int := if a = negZeroCode then 0 else a
+
+/-- `float64`: codes are the integral values themselves, `nanCode` = NaN (equal to nothing, not even
+to itself), `negZeroCode` = -0 (equal to +0, yet a different value: its reciprocal is -Inf) -/
+def floatEq : ElemEq := ⟨fun a b => a != nanCode && b != nanCode && canonF a == canonF b⟩
+
+/-- `_, ok := m[v]` for a Go map whose keys were inserted from the list `m`: a key is found iff
+some inserted key is `==` to it (a NaN key is never found, and finds nothing) -/
+def memE (E : ElemEq) (m : List Int) (v : Int) : Bool := m.any fun x => E.eq v x
+
+/-- `seen[k] = struct{}{}`: inserts unless an `==` key is present (every NaN is a new entry) -/
+def mapInsertE (E : ElemEq) (seen : List Int) (k : Int) : List Int := if memE E seen k then seen else k :: seen
+
+/-- the `Unique` selector with the key type's `==` -/
+def uniqueSelE (E : ElemEq) (key : Int → Int) (st : List Int × Nat) (v : Int) : (List Int × Nat) × Bool :=
+  let seen := mapInsertE E st.1 (key v)
+  if st.2 < seen.length then ((seen, seen.length), true) else ((seen, st.2), false)
+
 /-- `arena[off : off+len : off+cap]` -/
 structure Win where
   off : Nat
@@ -84,25 +113,25 @@ def AOut.res : AOut → ARes
 
 def afinish (r : Option (List Int × AOut)) : Option (List Int × ARes) := r.map fun (A, o) => (A, o.res)
 
-def diffA (A : List Int) (dst : Option Win) (s1 s2 : Win) : Option (List Int × ARes) :=
+def diffA (E : ElemEq) (A : List Int) (dst : Option Win) (s1 s2 : Win) : Option (List Int × ARes) :=
   let o := AOut.init dst
   if s1.len = 0 then some (A, o.res)
   else if s2.len = 0 then afinish (some (apushAll A o (s1.read A)))
   else
     let m := s2.read A
-    afinish (aselLoop (statelessSel fun v => !m.contains v) s1 s1.len 0 () A o)
+    afinish (aselLoop (statelessSel fun v => !memE E m v) s1 s1.len 0 () A o)
 
-def intersectA (A : List Int) (dst : Option Win) (s1 s2 : Win) : Option (List Int × ARes) :=
+def intersectA (E : ElemEq) (A : List Int) (dst : Option Win) (s1 s2 : Win) : Option (List Int × ARes) :=
   let o := AOut.init dst
   if s1.len = 0 ∨ s2.len = 0 then some (A, o.res)
   else
     let m := s2.read A
-    afinish (aselLoop (statelessSel fun v => m.contains v) s1 s1.len 0 () A o)
+    afinish (aselLoop (statelessSel fun v => memE E m v) s1 s1.len 0 () A o)
 
-def uniqueByKeyA (key : Int → Int) (A : List Int) (dst : Option Win) (s1 : Win) : Option (List Int × ARes) :=
+def uniqueByKeyA (E : ElemEq) (key : Int → Int) (A : List Int) (dst : Option Win) (s1 : Win) : Option (List Int × ARes) :=
   let o := AOut.init dst
   if s1.len = 0 then some (A, o.res)
-  else afinish (aselLoop (uniqueSel key) s1 s1.len 0 ([], 0) A o)
+  else afinish (aselLoop (uniqueSelE E key) s1 s1.len 0 ([], 0) A o)
 
 /-- `Filter` with the predicate "member of the VALUE list acc" (the harness passes a closure
 over a copy, not over arena memory) -/
@@ -132,21 +161,21 @@ def aipFinish (s1 : Win) (r : Option (List Int × Nat)) : Option (List Int × AR
 
 /-- `DiffInPlaceFirst(s1, s2)`: `s2` may be ANY window of the same arena (also a partial window
 of `s1`); the map is built from it before the first swap. -/
-def diffInPlaceA (A : List Int) (s1 s2 : Win) : Option (List Int × ARes) :=
+def diffInPlaceA (E : ElemEq) (A : List Int) (s1 s2 : Win) : Option (List Int × ARes) :=
   if s1.len = 0 ∨ s2.len = 0 then some (A, .win s1.off s1.len)
   else
     let m := s2.read A
-    aipFinish s1 (aipLoop (statelessSel fun v => !m.contains v) s1.off s1.len 0 () A 0)
+    aipFinish s1 (aipLoop (statelessSel fun v => !memE E m v) s1.off s1.len 0 () A 0)
 
-def intersectInPlaceA (A : List Int) (s1 s2 : Win) : Option (List Int × ARes) :=
+def intersectInPlaceA (E : ElemEq) (A : List Int) (s1 s2 : Win) : Option (List Int × ARes) :=
   if s1.len = 0 ∨ s2.len = 0 then some (A, .win s1.off 0)
   else
     let m := s2.read A
-    aipFinish s1 (aipLoop (statelessSel fun v => m.contains v) s1.off s1.len 0 () A 0)
+    aipFinish s1 (aipLoop (statelessSel fun v => memE E m v) s1.off s1.len 0 () A 0)
 
-def uniqueByKeyInPlaceA (key : Int → Int) (A : List Int) (s1 : Win) : Option (List Int × ARes) :=
+def uniqueByKeyInPlaceA (E : ElemEq) (key : Int → Int) (A : List Int) (s1 : Win) : Option (List Int × ARes) :=
   if s1.len = 0 then some (A, .win s1.off s1.len)
-  else aipFinish s1 (aipLoop (uniqueSel key) s1.off s1.len 0 ([], 0) A 0)
+  else aipFinish s1 (aipLoop (uniqueSelE E key) s1.off s1.len 0 ([], 0) A 0)
 
 def filterInPlaceA (p : Int → Bool) (A : List Int) (s1 : Win) : Option (List Int × ARes) :=
   aipFinish s1 (aipLoop (statelessSel p) s1.off s1.len 0 () A 0)
@@ -194,6 +223,22 @@ end Golib.C14
 namespace Golib.C14
 open Golib.Proto
 
+/-! ### Equal / Index / Contains with the element type's `==` -/
+
+/-- `Equal`: lengths differ → false; otherwise `s1[i] != s2[i]` element by element (`none` = the
+unreachable index panic).  With a non-reflexive `==`, `Equal(s, s)` is false when `s` holds a NaN. -/
+def equalLoopE (E : ElemEq) : List Int → List Int → Option Bool
+  | [], _ => some true
+  | _ :: _, [] => none
+  | a :: as, b :: bs => if !E.eq a b then some false else equalLoopE E as bs
+
+def equalE (E : ElemEq) (s1 s2 : List Int) : Option Bool :=
+  if s1.length != s2.length then some false else equalLoopE E s1 s2
+
+/-- `Index`: first `i` with `v == s[i]`, else `-1` (a NaN is never found) -/
+def indexE (E : ElemEq) (s : List Int) (v : Int) : Int := indexFunc s (fun x => E.eq v x)
+
+
 /-- split tokens at `;` -/
 def groups (ts : List String) : List (List String) :=
   ts.foldr (fun t acc =>
@@ -233,23 +278,23 @@ def showCall (r : Option (List Int × ARes)) : Option (List Int × String) :=
   r.map fun (A, res) => (A, s!"{showARes A res} | {showInts A}")
 
 /-- outer `none` = bad-op, inner `none` = panic -/
-def arenaStep (A : List Int) (ts : List String) : Option (Option (List Int × String)) :=
+def arenaStep (E : ElemEq) (A : List Int) (ts : List String) : Option (Option (List Int × String)) :=
   match groups ts with
   | [["diff", d, s1, s2]] =>
     match parseDstIn A d, parseWinIn A s1, parseWinIn A s2 with
-    | some d, some s1, some s2 => some (showCall (diffA A d s1 s2))
+    | some d, some s1, some s2 => some (showCall (diffA E A d s1 s2))
     | _, _, _ => none
   | [["intersect", d, s1, s2]] =>
     match parseDstIn A d, parseWinIn A s1, parseWinIn A s2 with
-    | some d, some s1, some s2 => some (showCall (intersectA A d s1 s2))
+    | some d, some s1, some s2 => some (showCall (intersectA E A d s1 s2))
     | _, _, _ => none
   | [["unique", d, s1]] =>
     match parseDstIn A d, parseWinIn A s1 with
-    | some d, some s1 => some (showCall (uniqueByKeyA id A d s1))
+    | some d, some s1 => some (showCall (uniqueByKeyA E id A d s1))
     | _, _ => none
   | [["uniquekey", k, d, s1]] =>
     match k.toInt?, parseDstIn A d, parseWinIn A s1 with
-    | some k, some d, some s1 => if k = 0 then none else some (showCall (uniqueByKeyA (keyFn k) A d s1))
+    | some k, some d, some s1 => if k = 0 then none else some (showCall (uniqueByKeyA intEq (keyFn k) A d s1))
     | _, _, _ => none
   | [["filter", d, s1], acc] =>
     match parseDstIn A d, parseWinIn A s1, ints? acc with
@@ -257,19 +302,19 @@ def arenaStep (A : List Int) (ts : List String) : Option (Option (List Int × St
     | _, _, _ => none
   | [["diffip", s1, s2]] =>
     match parseWinIn A s1, parseWinIn A s2 with
-    | some s1, some s2 => some (showCall (diffInPlaceA A s1 s2))
+    | some s1, some s2 => some (showCall (diffInPlaceA E A s1 s2))
     | _, _ => none
   | [["intersectip", s1, s2]] =>
     match parseWinIn A s1, parseWinIn A s2 with
-    | some s1, some s2 => some (showCall (intersectInPlaceA A s1 s2))
+    | some s1, some s2 => some (showCall (intersectInPlaceA E A s1 s2))
     | _, _ => none
   | [["uniqueip", s1]] =>
     match parseWinIn A s1 with
-    | some s1 => some (showCall (uniqueByKeyInPlaceA id A s1))
+    | some s1 => some (showCall (uniqueByKeyInPlaceA E id A s1))
     | _ => none
   | [["uniquekeyip", k, s1]] =>
     match k.toInt?, parseWinIn A s1 with
-    | some k, some s1 => if k = 0 then none else some (showCall (uniqueByKeyInPlaceA (keyFn k) A s1))
+    | some k, some s1 => if k = 0 then none else some (showCall (uniqueByKeyInPlaceA intEq (keyFn k) A s1))
     | _, _ => none
   | [["filterip", s1], acc] =>
     match parseWinIn A s1, ints? acc with
@@ -278,6 +323,18 @@ def arenaStep (A : List Int) (ts : List String) : Option (Option (List Int × St
   | [("values" :: k :: ws)] =>
     match k.toInt?, ws.mapM (parseWinIn A) with
     | some k, some ss => some (showCall (valuesA (fun v => v * k) A ss))
+    | _, _ => none
+  | [["equal", s1, s2]] =>
+    match parseWinIn A s1, parseWinIn A s2 with
+    | some s1, some s2 => some ((equalE E (s1.read A) (s2.read A)).map fun b => (A, s!"{showBool b} | {showInts A}"))
+    | _, _ => none
+  | [["index", v, s]] =>
+    match v.toInt?, parseWinIn A s with
+    | some v, some s => some (some (A, s!"{indexE E (s.read A) v} | {showInts A}"))
+    | _, _ => none
+  | [["contains", v, s]] =>
+    match v.toInt?, parseWinIn A s with
+    | some v, some s => some (some (A, s!"{showBool (decide (indexE E (s.read A) v ≥ 0))} | {showInts A}"))
     | _, _ => none
   | [["copy", a, b, s]] =>
     match a.toInt?, b.toInt?, parseWinIn A s with
@@ -298,13 +355,13 @@ def arenaStep (A : List Int) (ts : List String) : Option (Option (List Int × St
     | _, _ => none
   | _ => none
 
-def runArena : Option (List Int) → List String → List String
+def runArena (E : ElemEq) : Option (List Int) → List String → List String
   | _, [] => []
-  | none, _ :: ls => "dead" :: runArena none ls
+  | none, _ :: ls => "dead" :: runArena E none ls
   | some A, l :: ls =>
-    match arenaStep A (toks l) with
-    | none => "bad-op" :: runArena (some A) ls
-    | some none => "panic" :: runArena none ls
-    | some (some (A', out)) => out :: runArena (some A') ls
+    match arenaStep E A (toks l) with
+    | none => "bad-op" :: runArena E (some A) ls
+    | some none => "panic" :: runArena E none ls
+    | some (some (A', out)) => out :: runArena E (some A') ls
 
 end Golib.C14
